@@ -39,7 +39,7 @@ def showRid : Option (List Nat) → String
   | some a => toHex a
 
 /-- ops: reset | file none | file <0|1> <id>* | load | add <k> <id> | remove <k> | set <uid> <id> |
-search <id> | dosearch <id> | getuserid <uid> | lookupall | register <id> <fault 0|1> [sweep] | expire <slot> | restart create|open load|noload | poke head|next <i> <v> | attach <v> <s> <V> <S> |
+search <id> | dosearch <id> | getuserid <uid> | lookupall | exists <hex name, 0..24 bytes> | register <id> <fault 0|1> [sweep] | expire <slot> | restart create|open load|noload | poke head|next <i> <v> | attach <v> <s> <V> <S> |
 peer <add|remove|set|search|dosearch|getuserid|lookupall …> -/
 def showAll (l : List (Nat × List Int)) : String :=
   if l.isEmpty then "-" else
@@ -52,6 +52,10 @@ def peerOps : List String := ["add", "remove", "set", "search", "dosearch", "get
 def stepCore (d : DS) (ws : List String) : DS × String :=
   match ws with
   | ["lookupall"] => noDump d (do let l ← lookupAll d.s; pure (showAll l))
+  | ["exists", h] =>
+    match parseHex h with
+    | some name => if name.all (· < 256) ∧ name.length ≤ 24 then noDump d (checkExistsUser d.s name) else (d, "bad-op")
+    | none => (d, "bad-op")
   | ["expire", k] =>
     match k.toNat? with
     | some k =>
